@@ -43,8 +43,9 @@ T = {
          "Rocq/Coq proof (reflection on a finite grid + Flocq error lemma) + translation tie + bit-exact correspondence"),
  "C07": ("energy", "proof", "integer decision procedure <-> 10*log10(mean square) >= threshold over the Reals; monotone in the threshold; PCM decode/deinterleave lemmas; "
          "partial: libm log10 in binary64 is not modelled - cases within 2^-35 of the boundary and not on it are counted as float_zone and not compared",
-         "Audio/Energy.v, Pcm.v written by hand from signal.py / AudioEnergyValidator; tied by boundary-directed correspondence (exact ties, one LSB above/below, channel selectors)",
-         "trusted: Coq kernel; " + REALS + "; " + CORR, "Rocq/Coq proof (Reals bridge lemma) + boundary-directed correspondence"),
+         "Audio/Energy.v, Pcm.v written by hand from signal.py / AudioEnergyValidator; the dispatch of make_channel_selector is executed symbolically from util.py on every run and proved equal to Audio/Selector.v (TieSelector.v); "
+         "the numeric part is tied by boundary-directed correspondence (exact ties, one LSB above/below, channel selectors) and by the decision observed through split()",
+         "trusted: Coq kernel; " + REALS + "; " + CORR, "Rocq/Coq proof (Reals bridge lemma) + translation tie of the selector dispatch + boundary-directed correspondence"),
  "C09": ("split", "proof", "alias resolution (long name wins), max_read = pre-slicing, wav header codec round trip; partial: file system / wave module / stdin replacement are exercised, not modelled; "
          "pydub formats and microphone are out of reach in this sandbox",
          "each generated (audio, parameters) is run through nine containers and long/short/both spellings and compared with the single model output (Split.v)",
